@@ -15,8 +15,9 @@ import (
 // secret, and the pool of ciphertexts produced so far.
 //
 //	reset [sI rI sR rR]        -> ok
-//	enc I|R <msg>              -> ok <pfx> <ctr> <sI rI sR rR> | err exhausted <sI rI sR rR>
-//	del I|R <k> <mutation>     -> acc <msg> <sI rI sR rR> | rej <sI rI sR rR>
+//	enc I|R <msg> [plen]       -> ok <pfx> <ctr> <sI rI sR rR> | err exhausted <sI rI sR rR>
+//	     plaintext = be32(msg) padded to plen bytes (default 4); plen 0 = empty plaintext
+//	del I|R <k> <mutation>     -> acc <msg>|empty <sI rI sR rR> | rej <sI rI sR rR>
 //	     mutation: none | flip <i> | ctr <v> | pfx <v> | trunc <n> | ext <n>
 //	raw I|R <pfx> <ctr> <len>  -> rej ... (acc ... would be a forgery)
 type c01State struct {
@@ -58,7 +59,10 @@ func (st *c01State) deliver(x string, ct []byte) string {
 	if err != nil {
 		return "rej " + st.ctrs()
 	}
-	if len(pt) != 4 {
+	if len(pt) == 0 {
+		return "acc empty " + st.ctrs()
+	}
+	if len(pt) < 4 {
 		return fmt.Sprintf("acc ?%x %s", pt, st.ctrs())
 	}
 	return fmt.Sprintf("acc %d %s", binary.BigEndian.Uint32(pt), st.ctrs())
@@ -82,14 +86,29 @@ func init() {
 			case f[0] == "reset" && len(f) == 5:
 				st = c01New(c01U64(f[1]), c01U64(f[2]), c01U64(f[3]), c01U64(f[4]))
 				return "ok"
-			case f[0] == "enc" && len(f) == 3 && (f[1] == "I" || f[1] == "R"):
-				var pt [4]byte
-				binary.BigEndian.PutUint32(pt[:], uint32(c01U64(f[2])))
-				ct, err := st.end(f[1]).Encrypt(pt[:])
+			case f[0] == "enc" && (len(f) == 3 || len(f) == 4) && (f[1] == "I" || f[1] == "R"):
+				plen := 4
+				if len(f) == 4 {
+					plen = int(c01U64(f[3]))
+				}
+				if plen != 0 && plen < 4 || plen > 1<<20 {
+					return "bad-op"
+				}
+				pt := make([]byte, plen)
+				if plen >= 4 {
+					binary.BigEndian.PutUint32(pt[:4], uint32(c01U64(f[2])))
+					for k := 4; k < plen; k++ {
+						pt[k] = 0xee
+					}
+				}
+				ct, err := st.end(f[1]).Encrypt(pt)
 				if err != nil {
 					return "err exhausted " + st.ctrs()
 				}
 				st.pool = append(st.pool, ct)
+				if len(ct) != plen+crypto.EncryptionOverhead {
+					return fmt.Sprintf("ok-badlen %d", len(ct))
+				}
 				return fmt.Sprintf("ok %d %d %s", binary.BigEndian.Uint32(ct[0:4]), binary.BigEndian.Uint64(ct[4:12]), st.ctrs())
 			case f[0] == "del" && len(f) >= 4 && (f[1] == "I" || f[1] == "R"):
 				k := int(c01U64(f[2]))
@@ -160,6 +179,11 @@ func c01Gen(w *bufio.Writer, seed int64, tier string) {
 		case 2:
 			sI, rR = uint64(r.intn(5)), uint64(r.intn(5))
 			sR, rI = 1<<63-1+uint64(r.intn(3)), 1<<63-1
+		case 3: // around 2^32 (a counter truncated to 32 bits would wrap here)
+			sI = 1<<32 - 1 - uint64(r.intn(3))
+			rR = sI - uint64(r.intn(2))
+			sR = 1<<32 - uint64(r.intn(3))
+			rI = sR
 		}
 		if sI|rI|sR|rR == 0 {
 			fmt.Fprintln(w, "reset")
@@ -181,10 +205,42 @@ func c01Gen(w *bufio.Writer, seed int64, tier string) {
 			return "I"
 		}
 		ops := 8 + r.intn(32)
+		if r.chance(6) {
+			ops = 150 + r.intn(150) // long-lived session: state left by many earlier ops
+		}
+		if r.chance(8) {
+			// burst: many messages in flight, delivered far out of order (distance > 64), with
+			// duplicates — only the increasing subsequence may be accepted
+			x := r.pickS("I", "R")
+			n := 70 + r.intn(200)
+			base := len(pool)
+			for j := 0; j < n && send[x] != max; j++ {
+				fmt.Fprintf(w, "enc %s %d\n", x, msg)
+				msg++
+				pool = append(pool, ent{x, send[x]})
+				send[x]++
+			}
+			n = len(pool) - base
+			for j := 0; j < n && n > 0; j++ {
+				k := base + r.intn(n)
+				if r.chance(50) {
+					k = base + (j*67+r.intn(5))%n // stride 67: neighbours in time are > 64 apart in send order
+				}
+				fmt.Fprintf(w, "del %s %d none\n", other(x), k)
+				if r.chance(5) {
+					fmt.Fprintf(w, "del %s %d none\n", x, k)
+				}
+			}
+			continue
+		}
 		for o := 0; o < ops; o++ {
 			x := r.pickS("I", "R")
 			if len(pool) == 0 || r.chance(35) {
-				fmt.Fprintf(w, "enc %s %d\n", x, msg)
+				if r.chance(12) { // payload size boundaries: empty (exactly 28 bytes on the wire), 16 KiB +-1, 64 KiB
+					fmt.Fprintf(w, "enc %s %d %d\n", x, msg, r.pick(0, 0, 5, 100, 16383, 16384, 16385, 65536))
+				} else {
+					fmt.Fprintf(w, "enc %s %d\n", x, msg)
+				}
 				msg++
 				if send[x] != max { // Encrypt refuses the last counter value: no ciphertext, no pool entry
 					pool = append(pool, ent{x, send[x]})
@@ -227,7 +283,7 @@ func c01Gen(w *bufio.Writer, seed int64, tier string) {
 			case d < 90:
 				fmt.Fprintf(w, "del %s %d flip %d\n", other(p.end), k, r.intn(64))
 			case d < 96: // malformed lengths
-				fmt.Fprintf(w, "del %s %d trunc %d\n", other(p.end), k, r.pick(0, 1, 11, 12, 13, 27, 28, 29, 31, 32, 33))
+				fmt.Fprintf(w, "del %s %d trunc %d\n", other(p.end), k, r.pick(0, 1, 11, 12, 13, 27, 28, 29, 31, 32, 33, 16411, 16412))
 			case d < 98:
 				fmt.Fprintf(w, "raw %s %d %d %d\n", r.pickS("I", "R"), r.pick(0, 0x80000000), r.u64(), r.pick(0, 1, 11, 12, 27))
 			default:
